@@ -61,8 +61,13 @@ def make_source(src, n_or_data):
     s = io.ShardedIterable(data)
   else:
     raise ValueError(kind)
-  for i, k in src.get('shards', []):
-    s = s.shard(i, k)
+  for sh in src.get('shards', []):
+    i, k = sh[0], sh[1]
+    off = sh[2] if len(sh) > 2 else 0
+    if off and kind != 'iterable':
+      s = s.shard(i, k, min(off, len(s.shard(i, k))))     # a shard that was itself restored at an offset
+    else:
+      s = s.shard(i, k)
   return s
 
 
@@ -202,7 +207,7 @@ def _source(draw, n, allow_iterable=True):
   shards = []
   for _ in range(depth):
     k = draw(st.integers(1, 3))
-    shards.append([draw(st.integers(0, k - 1)), k])
+    shards.append([draw(st.integers(0, k - 1)), k, draw(st.sampled_from([0, 0, 1, 2]))])
   if shards:
     src['shards'] = shards
   return src
